@@ -72,7 +72,8 @@ Definition q_trunc (x : Q) : Z := if Qle_bool 0 x then Qfloor x else (- Qfloor (
 Definition q_ltb (a b : Q) : bool := negb (Qle_bool b a).
 Definition QA : Arith := {|
   T := Q; zero := 0%Q; one := 1%Q;
-  add := Qplus; sub := Qminus; mul := Qmult; div := Qdiv; opp := Qopp; ofZ := inject_Z;
+  add := fun a b => Qred (Qplus a b); sub := fun a b => Qred (Qminus a b); mul := fun a b => Qred (Qmult a b);
+  div := fun a b => Qred (Qdiv a b); opp := Qopp; ofZ := inject_Z;
   ltb := q_ltb; leb := Qle_bool; eqb := Qeq_bool;
   isfinite := fun _ => true;
   floorZ := Qfloor; rhuZ := q_rhu; rintZ := q_rint; truncZ := q_trunc |}.
